@@ -72,8 +72,14 @@ def _GenerateConstant(cv: LinearIR.ConstantValue) -> WebAssembly.Instruction:
     t = cv.Type
     if t.IsScalar():
         if isinstance(t, LinearIR.IntegerType):
+            value = cv.Value
+            if not -(2**31) <= value < 2**32:
+                raise Exception("Unsupported constant: does not fit in 32 bits")
+            if value >= 2**31:
+                # same 32 bits, as the signed immediate i32.const takes
+                value -= 2**32
             return WebAssembly.Instruction(
-                WebAssembly.opcodes["i32.const"], (cv.Value,)
+                WebAssembly.opcodes["i32.const"], (value,)
             )
         elif isinstance(t, LinearIR.FloatType):
             return WebAssembly.Instruction(
